@@ -46,7 +46,10 @@ def run_case(ctx, case, hostile=None):
     # histories survive; the other half keeps exercising it
     avoid = {"owned_node_outputs"} if case % 2 == 0 else set()
     # every fourth history also uses collaborator tensors whose own name setter can reject a name
-    gen = Gen(rng, w, hostile, avoid=avoid, collaborators=(case % 4 >= 2))
+    # every third history also reaches for the far ends of the argument ranges (indexes and sizes far past
+    # both ends, past 32/64-bit words): a call rejected only by the underlying list must leave no trace either
+    gen = Gen(rng, w, hostile, avoid=avoid, collaborators=(case % 4 >= 2),
+              extremes=(0.0, 0.15, 0.3)[case % 3])
     mon = histories.WalkerMonitor()
     ops, results = [], []
     kinds = set()
